@@ -177,6 +177,47 @@ func runC11(c *Ctx) {
 				}
 			}
 		}
+		// the configured success status is not committed on the error path — directly or through a helper that is handed w
+		commits := ""
+		var findStatus func(root ast.Node, depth int) string
+		findStatus = func(root ast.Node, depth int) string {
+			res := ""
+			ast.Inspect(root, func(n ast.Node) bool {
+				call, ok := n.(*ast.CallExpr)
+				if !ok {
+					return true
+				}
+				if se, ok := call.Fun.(*ast.SelectorExpr); ok && se.Sel.Name == "WriteHeader" && len(call.Args) == 1 {
+					if strings.HasSuffix(types.ExprString(call.Args[0]), ".Status") {
+						res = "WriteHeader(" + types.ExprString(call.Args[0]) + ") at " + c.pos(call.Pos())
+					}
+				}
+				if depth < 2 {
+					if fn := calleeOf(info, call); fn != nil && fn.Pkg() == p.Types {
+						passesW := false
+						for _, a := range call.Args {
+							if t := info.TypeOf(a); t != nil && t.String() == "net/http.ResponseWriter" {
+								passesW = true
+							}
+						}
+						if passesW {
+							for _, cfd := range allFuncDecls(p) {
+								if info.Defs[cfd.Name] == types.Object(fn) {
+									if r := findStatus(cfd.Body, depth+1); r != "" {
+										res = r + " (reached through " + fn.Name() + ")"
+									}
+								}
+							}
+						}
+					}
+				}
+				return true
+			})
+			return res
+		}
+		commits = findStatus(errIf.Body, 0)
+		c.check(commits == "", "C11.R3", key+"|success-status-not-committed-on-error", c.pos(errIf.Pos()), "the configured status is written only on the success side",
+			"the error branch commits the configured success status ("+commits+") before the error handler runs: the client receives a success status with the error body")
 		c.check(!leak, "C11.R3", key+"|no-document-bytes-on-error", c.pos(errIf.Pos()), "the error branch never writes the buffer", "the error branch writes the (partial) buffer to the client")
 		// R4
 		var writes []*ast.CallExpr
